@@ -51,6 +51,11 @@ def history(vc, length):
                     else:
                         a = bytes(rnd.getrandbits(8) if rnd.random() < 0.85 else 0 for _ in range(n))
                     args.append(a)
+                elif kind == "pick":
+                    a = bytearray.fromhex(rnd.choice(par))
+                    if a and rnd.random() < 0.15:
+                        a[rnd.randrange(len(a))] ^= 1 << rnd.randrange(8)
+                    args.append(bytes(a))
                 elif kind == "int":
                     args.append(rnd.getrandbits(par))
                 elif kind == "enum":
